@@ -1248,6 +1248,8 @@ R6_TABLE = [
     Loop(NB, 'NinjaBackend.generate_genlist_for_target', 'call:genlist.get_inputs()', 'every generator input gets its build statement'),
     Loop(BE, 'Backend.get_target_depend_files', 'attr:target.depend_files', 'every depend_files entry is kept'),
     Loop(BE, 'Backend.get_custom_target_sources', 'call:target.get_sources()', 'every custom target source is an input'),
+    Loop(BUILD, 'CompileTarget.get_generated_headers', 'call:self.depends.get_outputs()',
+         'every output of a depends: target is an order-only input, whatever its suffix (an included .def/.inc table is not a known header suffix)'),
 ]
 
 R6_SELFCHECK_SRC = '''
@@ -1417,11 +1419,25 @@ def loop_verdicts(ff: FuncFlow, source: str, _depth: int = 2) -> T.List[T.Tuple[
                 for g in comp.generators:
                     used = {x.id for x in ast.walk(g.iter) if isinstance(x, ast.Name)}
                     outer_vars = {t.id for g2 in comp.generators for t in ast.walk(g2.target) if isinstance(t, ast.Name)}
+                    it: ast.AST = g.iter
                     if used & outer_vars:
-                        continue
-                    if source in ff.origins_at(g.iter, n):
+                        # `for a in xs for b in a.f()`: an element of xs carries the access path of xs (B.2), so the inner
+                        # iterable is read with the earlier comprehension variables replaced by their iterables
+                        earlier = {g2.target.id: g2.iter for g2 in comp.generators[:comp.generators.index(g)] if isinstance(g2.target, ast.Name)}
+                        if not used & outer_vars <= set(earlier):
+                            continue
+                        import copy
+                        it = copy.deepcopy(g.iter)
+                        for _ in range(len(earlier)):
+                            it = _Subst(earlier).visit(it)
+                        ast.fix_missing_locations(ast.copy_location(it, g.iter))
+                    if source in ff.origins_at(it, n):
                         if any(g2.ifs for g2 in comp.generators):
-                            out.append(('undecided', f'{ff.qual}: `{short(comp, 70)}` filters the elements of {source}', comp))
+                            # normal form: `[f(x) for x in it if c]` is the loop `for x in it: if not c: continue; acc.append(f(x))`,
+                            # which the loop reading above reports - the two spellings get the same verdict
+                            flt = next(i for g2 in comp.generators for i in g2.ifs)
+                            out.append(('violation', f'`{short(comp, 70)}` drops the elements of {source} for which `{short(flt, 40)}` is false: '
+                                        'an iteration can finish without accumulating its element', comp))
                         else:
                             out.append(('ok', f'{ff.qual}: `{short(comp, 70)}` keeps every element of {source}', comp))
     if out or _depth <= 0:
